@@ -1,6 +1,7 @@
 (* C08 - HISTORIC: the record programs as they were BEFORE the fix commits
    4980426d (swap), f9934bdc (one-site gate), eb8c2f1e (compress_site),
-   e1e3f983 (dropped copies), 47017e6a (measure at the last site), kept only to
+   e1e3f983 (dropped copies), 47017e6a (measure at the last site), 7d04d5b5
+   (Tensor.normalize kept the flag of the tensor it rescaled), kept only to
    document why each fix was needed.  Nothing here models the current code:
    the current programs are in C08/Model.v and are covered by the positive
    theorem.  Each pre-fix program, started from a sound state, ends in a state
@@ -66,3 +67,23 @@ Proof. break_with (dropped_copy_prefix 0 0 (0, 0)). Qed.
 
 Lemma measure_prefix_breaks : BreaksRecord (measure_prefix 5 true (0, 0)).
 Proof. break_with (measure_prefix 5 true (0, 0)). Qed.
+
+(* Tensor.normalize[_] before 7d04d5b5: modify(data=T.data / T.norm(), left_inds=T.left_inds) - the
+   data was rescaled and the isometry flag passed on.  From a sound state whose loose record (0,5)
+   stays true, site 1 ends flagged left-isometric without being so. *)
+Definition normalize_site_prefix (i : nat) (st : mps) : option mps :=
+  if i <? length (sites st)
+  then Some (mkM (setS (sites st) i (mkS false false (fl (get (sites st) i)))) (rec st))
+  else None.
+
+Lemma normalize_site_prefix_breaks_flag :
+  exists st', Inv w_loose /\ normalize_site_prefix 1 w_loose = Some st'
+              /\ record_ok st' = true /\ ~ FlagsOK (sites st').
+Proof.
+  match eval vm_compute in (normalize_site_prefix 1 w_loose) with
+  | Some ?s => exists s
+  end.
+  split; [apply inv_b_iff; vm_compute; reflexivity|].
+  split; [vm_compute; reflexivity|]. split; [vm_compute; reflexivity|].
+  intro H. apply flags_ok_iff in H. vm_compute in H. discriminate.
+Qed.
